@@ -152,8 +152,27 @@ def run(ctx: Context) -> None:
             mem = [n for n in nodes if isinstance(n, ast.Attribute) and n.attr == 'dtype' and norm_text(n.value).split('.')[0] == arr_var and not any(any(x is n for x in ast.walk(g)) for g in gets)]
             if mem:
                 in_memory_always = True
-            if any(isinstance(n, ast.Call) and callee(ctx, fi, n) == 'numpy.dtype' for n in nodes):
-                normalised = True
+            for n in nodes:
+                if not (isinstance(n, ast.Call) and callee(ctx, fi, n) == 'numpy.dtype' and len(n.args) == 1):
+                    continue
+                # what is normalised is the encoded type whenever there is one, whichever way it is spelled: the choice between the
+                # encoded type and the type of the values may hang on the presence of the entry only, never on what kind of object it is
+                from .common import facts as _facts16
+                arg = n.args[0]
+                alts = [arg]
+                if isinstance(arg, ast.Name):
+                    ds_ = flow.defs_of(arg)
+                    alts = [d.stmt for d in ds_ if d.stmt is not None] if ds_ and all(d.kind == 'assign' for d in ds_) else []
+                fine = bool(alts)
+                for a_ in alts:
+                    for t, pol in _facts16(ctx, fi, a_, expand=False):
+                        if 'dtype' not in t and 'encoding' not in t:
+                            continue        # conditions about something else (the loop, the variable) are not this rule's business
+                        if not (t.endswith(' is None') or "'dtype' in " in t):
+                            fine = False
+                            how_chosen = t
+                if fine and any(g is x for g in gets for x in ast.walk(n)) or (fine and gets and isinstance(arg, ast.Name)):
+                    normalised = True
         ctx.check('R16.2', in_memory_always, "the type of the values in memory enters the key on every path: an on-disk type from the encoding may be fed as well but not instead "
                   "(decoded float64 connectivity re-typed with the same bytes, or the same variable with and without its encoding, must not share / split keys)", fi,
                   dt_feeds[0][0] if dt_feeds else lp,
